@@ -491,7 +491,8 @@ func makeIntArshaler(t reflect.Type) *arshaler {
 	}
 	fncs.unmarshal = func(dec *jsontext.Decoder, va addressableValue, uo *jsonopts.Struct) error {
 		xd := export.Decoder(dec)
-		stringify := xd.Tokens.Last.NeedObjectName() || uo.Flags.Get(jsonflags.StringifyNumbers|jsonflags.StringTag)
+		isName := xd.Tokens.Last.NeedObjectName()
+		stringify := isName || uo.Flags.Get(jsonflags.StringifyNumbers|jsonflags.StringTag)
 		if uo.Flags.Has(jsonflags.FormatTag) {
 			return newInvalidFormatError(dec, t)
 		}
@@ -517,6 +518,9 @@ func makeIntArshaler(t reflect.Type) *arshaler {
 				// according to the Go syntax and permitted a quoted null.
 				// See https://go.dev/issue/75619
 				n, err := strconv.ParseInt(string(val), 10, bits)
+				if err == nil && !isName && !hasLegacyNumberPrefix(val) {
+					err = &strconv.NumError{Func: "ParseInt", Num: string(val), Err: strconv.ErrSyntax}
+				}
 				if err != nil {
 					if string(val) == "null" {
 						if !uo.Flags.Get(jsonflags.MergeWithLegacySemantics) {
@@ -590,7 +594,8 @@ func makeUintArshaler(t reflect.Type) *arshaler {
 	}
 	fncs.unmarshal = func(dec *jsontext.Decoder, va addressableValue, uo *jsonopts.Struct) error {
 		xd := export.Decoder(dec)
-		stringify := xd.Tokens.Last.NeedObjectName() || uo.Flags.Get(jsonflags.StringifyNumbers|jsonflags.StringTag)
+		isName := xd.Tokens.Last.NeedObjectName()
+		stringify := isName || uo.Flags.Get(jsonflags.StringifyNumbers|jsonflags.StringTag)
 		if uo.Flags.Has(jsonflags.FormatTag) {
 			return newInvalidFormatError(dec, t)
 		}
@@ -616,6 +621,9 @@ func makeUintArshaler(t reflect.Type) *arshaler {
 				// according to the Go syntax and permitted a quoted null.
 				// See https://go.dev/issue/75619
 				n, err := strconv.ParseUint(string(val), 10, bits)
+				if err == nil && !isName && !hasLegacyNumberPrefix(val) {
+					err = &strconv.NumError{Func: "ParseUint", Num: string(val), Err: strconv.ErrSyntax}
+				}
 				if err != nil {
 					if string(val) == "null" {
 						if !uo.Flags.Get(jsonflags.MergeWithLegacySemantics) {
@@ -694,7 +702,8 @@ func makeFloatArshaler(t reflect.Type) *arshaler {
 	}
 	fncs.unmarshal = func(dec *jsontext.Decoder, va addressableValue, uo *jsonopts.Struct) error {
 		xd := export.Decoder(dec)
-		stringify := xd.Tokens.Last.NeedObjectName() || uo.Flags.Get(jsonflags.StringifyNumbers|jsonflags.StringTag)
+		isName := xd.Tokens.Last.NeedObjectName()
+		stringify := isName || uo.Flags.Get(jsonflags.StringifyNumbers|jsonflags.StringTag)
 		var allowNonFinite bool
 		if uo.Flags.Has(jsonflags.FormatTag) {
 			if uo.Format == "nonfinite" {
@@ -739,6 +748,9 @@ func makeFloatArshaler(t reflect.Type) *arshaler {
 				// according to the Go syntax and permitted a quoted null.
 				// See https://go.dev/issue/75619
 				n, err := strconv.ParseFloat(string(val), bits)
+				if err == nil && !isName && !hasLegacyNumberPrefix(val) {
+					err = &strconv.NumError{Func: "ParseFloat", Num: string(val), Err: strconv.ErrSyntax}
+				}
 				if err != nil {
 					if string(val) == "null" {
 						if !uo.Flags.Get(jsonflags.MergeWithLegacySemantics) {
@@ -1097,6 +1109,14 @@ func mapKeyWithUniqueRepresentation(k reflect.Kind, allowInvalidUTF8 bool) bool 
 		// can appear multiple times and all serialize as "NaN".
 		return false
 	}
+}
+
+// hasLegacyNumberPrefix reports whether a quoted number starts with
+// a minus sign or a digit, which is all that v1 ever passed to strconv
+// for a `string`-tagged field (e.g., it rejected "+1", "Infinity", and "NaN").
+// The restriction does not apply to object names used as map keys.
+func hasLegacyNumberPrefix(b []byte) bool {
+	return len(b) > 0 && (b[0] == '-' || ('0' <= b[0] && b[0] <= '9'))
 }
 
 var errNilField = errors.New("cannot set embedded pointer to unexported struct type")
